@@ -298,17 +298,12 @@ theorem field_stop (b : Option Int) (h : OptFits b) :
   | some i =>
     simp only [optIntStr, intStr_isEmpty, Bool.false_eq_true, if_false, pyInt_intStr i h, Option.map_some]
 
-theorem field_stride (c : Option Int) (h : OptFits c) (hz : c ≠ some 0) :
-    (if (optIntStr c).isEmpty then some (1 : Int)
-      else (pyInt (optIntStr c)).map (fun v => if v == 0 then 1 else v)) = some (c.getD 1) := by
+theorem field_stride (c : Option Int) (h : OptFits c) :
+    (if (optIntStr c).isEmpty then some (1 : Int) else pyInt (optIntStr c)) = some (c.getD 1) := by
   cases c with
   | none => rfl
   | some i =>
-    have hi : (i == 0) = false := by
-      simp only [ne_eq, Option.some.injEq] at hz
-      simp [hz]
-    simp only [optIntStr, intStr_isEmpty, Bool.false_eq_true, if_false, pyInt_intStr i h, Option.map_some, hi,
-      Option.getD_some]
+    simp only [optIntStr, intStr_isEmpty, Bool.false_eq_true, if_false, pyInt_intStr i h, Option.getD_some]
 
 theorem content_ne_colon (A R : Str) (hA : A ≠ [] ∨ R ≠ []) (hR : ∀ x ∈ R, x ≠ ':') (hA' : ∀ x ∈ A, x ≠ ':') :
     (A ++ ':' :: R == [':']) = false ∧ (A ++ ':' :: R == [':', ':']) = false := by
@@ -358,9 +353,8 @@ theorem parseSlice_two (a b : Option Int) (ha : OptFits a) (hb : OptFits b) :
       | some j => rfl
       | none => exact absurd ⟨rfl, rfl⟩ hnn
 
-/-- **`[a:b:c]`** reads back as the compiled op (`c ≠ 0`) -/
-theorem parseSlice_three (a b c : Option Int) (ha : OptFits a) (hb : OptFits b) (hc : OptFits c)
-    (hz : c ≠ some 0) :
+/-- **`[a:b:c]`** reads back as the compiled op (an explicit step 0 stays 0) -/
+theorem parseSlice_three (a b c : Option Int) (ha : OptFits a) (hb : OptFits b) (hc : OptFits c) :
     parseSlice (optIntStr a ++ ':' :: (optIntStr b ++ ':' :: optIntStr c))
       = some (compileStep (.slice a b (some c))) := by
   by_cases hnn : a = none ∧ b = none ∧ c = none
@@ -410,7 +404,7 @@ theorem parseSlice_three (a b c : Option Int) (ha : OptFits a) (hb : OptFits b) 
         simp [hx]
     unfold parseSlice
     simp only [h1, h2, Bool.or_self, Bool.false_eq_true, if_false, contains_colon, Bool.not_true,
-      splitColon2_three, field_start a ha, field_stop b hb, field_stride c hc hz]
+      splitColon2_three, field_start a ha, field_stop b hb, field_stride c hc]
     simp only [optIntStr_isEmpty]
     cases a with
     | some i => cases b <;> rfl
